@@ -192,7 +192,14 @@ def corrupt_export(r, doc, opts, info, what=None):
         doc.pop("EVENT_SCHEMA_VERSION", None)
         doc["CDEDB_EXPORT_EVENT_VERSION"] = r.choice([6, 20, "7", None, 3.5])
     elif what == "no-track-selected":
-        if len(info["tracks"]) < 2:
+        if r.random() < 0.5:
+            # two tracks in the LAST part that has tracks (or in the only part)
+            last = sorted(doc["event"]["parts"].keys(), key=lambda s: s.encode())[-1]
+            tr = doc["event"]["parts"][last]["tracks"]
+            tr["998"] = {"title": "Abend", "shortname": "Abend", "num_choices": 2, "min_choices": 1, "sortkey": 9}
+            if len(tr) < 2:
+                tr["997"] = {"title": "Nacht", "shortname": "Nacht", "num_choices": 2, "min_choices": 1, "sortkey": 8}
+        elif len(info["tracks"]) < 2:
             return None
         opts["track"] = None
     elif what == "unknown-track":
@@ -690,7 +697,8 @@ def stream_e2e_cde(seed, tier, workdir, stream):
         twin = None
         if i % 3 == 0:
             twin, edits = irrelevant_edits(r, doc, opts, info)
-        cases.append({"doc": doc, "opts": opts, "info": info, "rooms": rooms, "threads": r.choice([1, 1, 2, 4]), "twin": twin})
+        cases.append({"doc": doc, "opts": opts, "info": info, "rooms": rooms, "threads": r.choice([1, 1, 2, 4]), "twin": twin,
+                      "prf": rooms is not None and r.random() < 0.6})
     return cases
 
 
@@ -728,7 +736,8 @@ def lines_e2e_cde(cases, workdir, stream, binary):
             json.dump(c["doc"], open(inp, "w", encoding="utf-8"), ensure_ascii=False)
             if os.path.exists(outp):
                 os.remove(outp)
-            rc, so, se, to = run_bin(binary, cde_args(c["opts"], c["rooms"], c["threads"]) + [inp, outp])
+            prf = ["--possible-rooms-field", "possible_rooms"] if c.get("prf") else []
+            rc, so, se, to = run_bin(binary, cde_args(c["opts"], c["rooms"], c["threads"]) + prf + [inp, outp])
             bad = to or rc not in (0, 1, 65) or "panicked" in se
             out.append(line("direct", ["C10", "C15"], ok=not bad, what=f"exit {rc} timeout {to} stderr tail: {se[-300:]}", case=i, stream=stream, nontrivial=False))
             if rc == 65 and "only possible with 1 or more participants" in se:
@@ -759,6 +768,9 @@ def lines_e2e_cde(cases, workdir, stream, binary):
             payload = json.dumps({"doc": tag(c["doc"]), "opts": c["opts"], "imp": tag(strip_import(imp)), "rooms": c["rooms"]}, ensure_ascii=False)
             out.append(line("spec", ["C05", "C11", "C01", "C06"], "CE", payload, "file=ok write=ok hard=true room=true", case=i, stream=stream,
                             nontrivial=bool(imp.get("registrations"))))
+            if c.get("prf"):
+                payload = json.dumps({"doc": tag(c["doc"]), "opts": c["opts"], "imp": tag(strip_import(imp)), "rooms": c["rooms"], "field": "possible_rooms"}, ensure_ascii=False)
+                out.append(line("spec", ["C18"], "CP", payload, "sound=true nonempty=true", case=i, stream=stream, nontrivial=bool(imp.get("registrations"))))
             # overall quality in the summary (C08)
             m = re.search(r"with solution quality (\S+) / overall assignment quality (\S+)\. Based", imp.get("summary", ""))
             if m:
@@ -767,7 +779,7 @@ def lines_e2e_cde(cases, workdir, stream, binary):
             if c["twin"] is not None and c["threads"] == 1:
                 json.dump(c["twin"], open(inp, "w", encoding="utf-8"), ensure_ascii=False)
                 os.remove(outp)
-                rc2, so2, se2, to2 = run_bin(binary, cde_args(c["opts"], c["rooms"], 1) + [inp, outp])
+                rc2, so2, se2, to2 = run_bin(binary, cde_args(c["opts"], c["rooms"], 1) + prf + [inp, outp])
                 same = rc2 == rc
                 if same and rc2 == 0:
                     imp2 = json.load(open(outp, encoding="utf-8"))
@@ -813,6 +825,20 @@ def stream_cli_simple(seed, tier, workdir, stream):
                 c["instructors"].append(c["instructors"][0])
         cases.append({"doc": doc, "rooms": rooms, "threads": r.choice([1, 1, 2, 4, None]), "print": r.random() < 0.8,
                       "stale": r.random() < 0.3, "output": r.random() < 0.9})
+    # very large instances: several hundred participants (f32 effects in the quality figures)
+    for _ in range(scale(tier, 2, 8)):
+        np_ = r.randint(340, 520)
+        nc = 16
+        cap = (np_ - 12) // nc + 2          # tight: many people end up in a second or third choice
+        courses = [{"name": f"K{i}", "num_max": cap, "num_min": r.choice([0, 5, 10]), "instructors": []} for i in range(nc)]
+        parts = []
+        for i in range(np_):
+            ch = r.sample(range(nc), 3)
+            parts.append({"name": f"P{i}", "choices": [{"course": c, "penalty": j} for j, c in enumerate(ch)]})
+        for i in range(12):
+            courses[i]["instructors"].append(i)
+        cases.append({"doc": {"format": "X-coursedata-simple", "version": "1.0", "participants": parts, "courses": courses},
+                      "rooms": None, "threads": 4, "print": False, "stale": False, "output": True})
     return cases
 
 
@@ -956,7 +982,9 @@ def corrupt_simple(r, doc, what=None):
     elif what == "instr-eq-len":
         r.choice(cs)["instructors"].append(len(ps))
     elif what == "min>max":
-        c = r.choice(cs); c["num_min"] = c["num_max"] + 1
+        withinstr = [c for c in cs if c["instructors"]]
+        c = r.choice(withinstr) if withinstr and r.random() < 0.7 else r.choice(cs)
+        c["num_min"] = c["num_max"] + 1
     elif what == "no-participants":
         del doc["participants"]
     elif what == "no-courses":
